@@ -13,10 +13,20 @@ out = ["## 13. Seeded changes and which checks catch them", "",
        "fails with the change and passes without it; stored under `seeded/<id>/`). `tools/seeded_all.py`",
        "re-runs every check against every change (scratch worktree + `DISCOPY_REPO`). Current result:",
        "**%d of %d caught** (%d of them only as a broken correspondence, `no-failing-input-found`)." % (caught, len(rows), nfi),
-       "Checks were strengthened wherever a change was first missed (generators: PRO self-adjoint",
-       "types, spiral snakes, twins, total callable box maps, exotic wire values, chained substitutions,",
-       "absent jacobian variables, late-mixing circuits, wire-less classical gates, custom multi-qubit",
-       "gates, adjacent `==`-equal boxes, reused request lists, int calling conventions, …).", "",
+       "",
+       "The changes came in five rounds (`Cxx-m1..3`, `-r2m*`, `-r3m*`, `-r4m*`, `-r5m*`); from round 2 on each",
+       "agent was told what the earlier rounds had produced and asked for something different and harder to",
+       "notice (rarely used flags and calling conventions, second use of an object, state carried between",
+       "calls, cross-class mixes, sizes, data types). Caught with a failing input on the FIRST run, before any",
+       "strengthening: round 1 56/60, round 2 26/40, round 3 16/40, round 4 26/40, round 5 24/40. Every miss was",
+       "turned into a generalised region of inputs by a follow-up (never a single pinned regression case):",
+       "PRO self-adjoint types, spiral and double-leg snakes, twins, total callable box and object maps, exotic",
+       "and typed wire values, chained substitutions, late-mixing circuits, custom 0..2-qubit gates, `==`-equal",
+       "and identical box objects, histories (re-reading handed-out values, mutable data, caches keyed by repr,",
+       "drawing twice), every box subclass with its own constructor/dagger, every numeric type of a scalar,",
+       "n-ary and unbound calling conventions, batch evaluation, nested/sum/bubble boxes, cross-class tensors,",
+       "scaling families under a lowered recursion limit, … The strengthened streams also found most of the",
+       "genuine defects F42–F5k listed in section 11.", "",
        "| change | property | check(s) | verdict | what it breaks |", "|---|---|---|---|---|"]
 for r in rows:
     out.append("| %s | %s | %s | %s | %s |" % (
